@@ -31,8 +31,8 @@ from ..canon import fingerprint
 from ..explorer import Step
 
 PROPERTY = "C01"
-ALPHABET = "profiles P1..P10 (see module docstring and PROFILES); deliveries: next frame, first 1 / 9 bytes of next frame, flush"
-QUICK_DEPTH = {"P4": 4, "P5": 4, "P1": 5, "P2": 5, "P3": 6, "P6": 6, "P7": 6, "P8": 6, "P9": 6, "P10": 6}
+ALPHABET = "profiles P1..P11 (see module docstring and PROFILES); deliveries: next frame, first 1 / 9 bytes of next frame, flush"
+QUICK_DEPTH = {"P4": 4, "P5": 4, "P1": 5, "P2": 5, "P3": 6, "P6": 6, "P7": 6, "P8": 6, "P9": 6, "P10": 6, "P11": 5}
 BOUNDS = {"quick": "profiles to depth %s, <=1 deviation (a raising call, or one window of non-lock-step delivery), two start states" % (sorted(QUICK_DEPTH.items()),), "thorough": "depth 7, <=2 deviations (or time budget, reported)"}
 C, S = P.C, P.S
 REQ = H.REQ_POST + [(b"X-Mixed", b" padded "), (b"accept", b"*/*")]
@@ -130,6 +130,9 @@ def calls():
         add(p + ":hello1", x, "send_data", (1, b"hello"), {}, [("data", 1, b"hello", False)])
         add(p + ":hello1pad", x, "send_data", (1, b"hello"), {"pad_length": 0}, [("data", 1, b"hello", False)])
         add(p + ":hello1pades", x, "send_data", (1, b"hello"), {"pad_length": 9, "end_stream": True}, [("data", 1, b"hello", True)])
+    # P11: MAX_FRAME_SIZE raised together with another setting in one call, then frames of the new size
+    for x, p in ((C, "c"), (S, "s")):
+        add(p + ":set-mfs+mhls", x, "update_settings", ({6: 100000, 5: 32768},), {}, [("settings", ((5, 32768), (6, 100000)))])
     add("c:prio3-w1", C, "prioritize", (3,), {"weight": 1}, [("priority", 3, 1, 0, False)])
     add("c:req7prio-w1", C, "send_headers", (7, REQ), {"priority_weight": 1, "priority_exclusive": True, "end_stream": True},
         [hdr(7, "request", REQ, True), ("priority", 7, 1, 0, True)])
@@ -151,6 +154,7 @@ PROFILES = {
     "P8": ["c:reqbig1", "c:req1", "s:resp1", "s:fill1", "c:ack1-2000", "c:ack1-40000", "s:data1-2000", "s:data1", "c:data1",
            "s:data1pad", "c:incr"],
     "P9": ["c:req1", "s:resp1", "s:set-mfs", "s:set-mfs-16384", "c:data1-20000", "c:set-mfs", "c:set-mfs-16384", "s:data1-20000"],
+    "P11": ["c:req1", "s:resp1", "s:set-mfs+mhls", "c:set-mfs+mhls", "c:data1-20000", "s:data1-20000"],
     # every body-carrying call below sends the announced five bytes; BODY_GUARD lets each side send them once and end
     # the message only afterwards, so that every program is valid traffic
     "P10": ["c:req1cl", "c:hello1", "c:hello1pad", "c:hello1pades", "c:end1", "c:trailers1", "s:resp1cl", "s:hello1", "s:hello1pad",
